@@ -18,7 +18,8 @@ RULE = {"C15": "generated StatefulAutonomous subclasses (1-6 states: chains, loo
 REQUIRED = {"C15": {"expiry-hop": 500, "expiry-finish": 100, "re-entry-by-next_state": 100, "second-period": 300,
                     "late-first-iteration": 100, "dashboard-edited-duration": 100, "registered-var-read": 100,
                     "in-state-done": 100, "post-end-iteration": 300, "exact-landing-strict": 100, "tie-accepted": 20,
-                    "re-entered-timed-state-ran": 50}}
+                    "re-entered-timed-state-ran": 50, "states-inherited-through-two-or-more-levels": 100,
+                    "second-mode-with-same-state-names-in-process": 200, "other-mode-ran-between-periods": 50}}
 ASSUMPTIONS = {"C15": ["an expiry comparison landing exactly on start+duration is a tie unless every operand lies on the 1/64 s grid"]}
 
 NAMES = ["sa", "sb", "sc", "sd", "se", "sf"]
@@ -69,8 +70,18 @@ def gen_case(rng, uid):
     sdvars = []
     for i in range(rng.randrange(0, 3)):
         sdvars.append({"name": f"v{i}_{uid}", "default": rng.choice([True, False, 1, 0.5, -2.25, "txt", ""]), "prefix": rng.random() < 0.7})
+    # the states may be spread over up to three levels of subclassing (the last level is the mode class itself)
+    nlev = rng.choice([1, 1, 2, 3, 3])
+    for st in states:
+        st["level"] = rng.randrange(nlev)
+    # a second mode with the same state / variable names but other durations and defaults, living in the same process
+    companion = None
+    if rng.random() < 0.35:
+        companion = {"durs": {st["name"]: dur() for st in states}, "when": rng.choice(["before", "after", "after"]),
+                     "runs": rng.random() < 0.5,
+                     "vars": [rng.choice([True, 7, 0.125, "other"]) for _ in sdvars]}
     return {"uid": uid, "grid": grid, "period": period, "states": states, "script": script, "sdvars": sdvars,
-            "hseed": rng.randrange(1 << 30), "ops": None}
+            "levels": nlev, "companion": companion, "hseed": rng.randrange(1 << 30), "ops": None}
 
 
 _FN = {}
@@ -102,10 +113,33 @@ def _vf_body(self, name, args):
             self.next_state(act[1])
 
 
+def build_companion(case):
+    """Another mode class of the same process: same state and variable names, other durations / defaults."""
+    from robotpy_ext.autonomous import stateful_autonomous as sa
+    comp = case["companion"]
+    body = {"MODE_NAME": case["uid"] + "_other"}
+    names = [st["name"] for st in case["states"]]
+    for i, st in enumerate(case["states"]):
+        f = _make_fn(st["name"], st["sig"])
+        body[st["name"]] = sa.timed_state(duration=comp["durs"][st["name"]] / 1e6, first=i == 0,
+                                          next_state=names[i + 1] if i + 1 < len(names) else None)(f)
+    sdvars = case["sdvars"]
+
+    def initialize(self):
+        for v, d in zip(sdvars, comp["vars"]):
+            self.register_sd_var(v["name"], d, add_prefix=True)
+    body["initialize"] = initialize
+    return type("Other_" + case["uid"], (sa.StatefulAutonomous,), body)
+
+
 def build(case):
     from robotpy_ext.autonomous import stateful_autonomous as sa
-    body = {"MODE_NAME": case["uid"]}
+    nlev = case.get("levels", 1)
+    bodies = [{} for _ in range(nlev)]
+    body = bodies[-1]
+    body["MODE_NAME"] = case["uid"]
     for st in case["states"]:
+        body = bodies[min(st.get("level", nlev - 1), nlev - 1)]
         f = _make_fn(st["name"], st["sig"])
         f.__doc__ = st.get("doc")
         if st["timed"]:
@@ -123,8 +157,10 @@ def build(case):
     def initialize(self):
         for v in sdvars:
             self.register_sd_var(v["name"], v["default"], add_prefix=v["prefix"])
-    body["initialize"] = initialize
-    cls = type("Mode_" + case["uid"], (sa.StatefulAutonomous,), body)
+    bodies[0]["initialize"] = initialize
+    cls = sa.StatefulAutonomous
+    for lv, b in enumerate(bodies):
+        cls = type(("Mode_" if lv == nlev - 1 else f"Base{lv}_") + case["uid"], (cls,), b)
     return cls
 
 
@@ -237,7 +273,15 @@ class Driver:
         self.violation = None
         self.sd = ntcore.NetworkTableInstance.getDefault().getTable("SmartDashboard")
         cls = build(case)
+        comp = case.get("companion")
+        self.other = None
+        if comp and comp["when"] == "before":
+            self.other = self._mk_other()
         self.mode = cls()
+        if comp and comp["when"] == "after":
+            self.other = self._mk_other()
+        if case.get("levels", 1) >= 3 and len({s.get("level") for s in case["states"]}) >= 2:
+            self.events["states-inherited-through-two-or-more-levels"] = 1
         self.mode._vf_log = self.log = []
         self.mode._vf_counts = {}
         self.mode._vf_script = case["script"]
@@ -250,6 +294,21 @@ class Driver:
 
     def ev(self, k, n=1):
         self.events[k] = self.events.get(k, 0) + n
+
+    def _mk_other(self):
+        o = build_companion(self.case)()
+        o._vf_log, o._vf_counts, o._vf_script = [], {}, {}
+        self.events["second-mode-with-same-state-names-in-process"] = 1
+        return o
+
+    def run_other(self):
+        """The other mode gets a short period of its own between two periods of the mode under test."""
+        o = self.other
+        o.on_enable()
+        for j in range(4):
+            o.on_iteration(j * self.case["period"] / 1e6)
+        o.on_disable()
+        self.ev("other-mode-ran-between-periods")
 
     def fail(self, kind, detail, op):
         self.violation = {"first": kind, "detail": detail, "op": op}
@@ -277,6 +336,10 @@ class Driver:
             self.dash_vars[op[1]] = op[2]
             return True
         try:
+            if k == "other_period":
+                if self.other is not None:
+                    self.run_other()
+                return True
             if k == "on_enable":
                 self.mode.on_enable()
                 self.periods += 1
@@ -362,6 +425,9 @@ class Driver:
                 nv = (not d) if isinstance(d, bool) else d + "x" if isinstance(d, str) else rng.choice([0, 1.5, -3, 42])
                 if not do(["sd_var", v["name"], nv]):
                     return ops
+            if self.other is not None and case["companion"]["runs"] and rng.random() < 0.6:
+                if not do(["other_period"]):
+                    return ops
             if not do(["on_enable"]):
                 return ops
             tm = 0
@@ -402,8 +468,21 @@ class Driver:
         return (self.periods >= 2 or self.reentered) and self.hops >= 1
 
 
+class _Failed:
+    """Stand-in for a Driver whose mode could not even be constructed."""
+    def __init__(self, ex):
+        self.events = {}
+        self.violation = {"first": "construction-raised", "detail": f"constructing the mode raised {ex!r}", "op": None}
+
+    def nontrivial(self):
+        return False
+
+
 def _run_one(case, acc, ops=None):
-    d = Driver(case, acc)
+    try:
+        d = Driver(case, acc)
+    except Exception as ex:  # noqa  -- every generated mode is well-formed
+        return _Failed(ex), ops or []
     if ops is None:
         ops = d.run_generated(random.Random(case["hseed"]))
     else:
@@ -418,6 +497,7 @@ def run_shard(spec):
     acc = Acc()
     for i in range(spec["n"]):
         case = gen_case(rng, f"M{spec['seed']:x}x{i}")
+        case["hist"] = [spec["seed"], i]
         d, ops = _run_one(case, acc)
         acc.evaluations += 1
         for k, n in d.events.items():
@@ -437,6 +517,15 @@ def run_shard(spec):
 def replay(pid, case):
     acc = Acc()
     d, _ = _run_one(case, acc, ops=case["ops"])
+    if d.violation is None and "hist" in case:
+        # not reproducible alone: repeat it behind the cases that preceded it in its shard
+        seed, idx = case["hist"]
+        rng = random.Random(seed)
+        for i in range(idx):
+            _run_one(gen_case(rng, f"M{seed:x}x{i}"), Acc())
+        d, _ = _run_one(case, Acc(), ops=case["ops"])
+        if d.violation is not None:
+            d.violation["needs_history"] = f"only behind the {idx} cases generated before it from shard seed {seed}"
     if d.violation is None:
         return None
     v = dict(d.violation)
